@@ -8,7 +8,8 @@ import json
 import random
 
 from harness import core
-from harness.c24 import T1, T2, validate
+from harness import cache_texts
+from harness.c24 import validate
 
 
 def main() -> int:
@@ -21,22 +22,20 @@ def main() -> int:
     hists.sort(key=lambda h: json.dumps(h))
     all_targets = ["cpp", "csharp", "golang", "java", "jsonschema", "python", "typescript", "xsd"]
     cases = []
+    short = [h for h in hists if len(h) <= 2]
+    long = [h for h in hists if len(h) > 2]
+    rnd.shuffle(long)
     if ck.quick:
-        for h in hists:
-            cases.append({"target": "jsonschema", "steps": h})
-        sample = list(hists)
-        rnd.shuffle(sample)
-        for i, h in enumerate(sample[:70]):
-            cases.append({"target": all_targets[i % len(all_targets)], "steps": h})
+        # every history of <= 2 operations, and a seeded sample of the longer ones; targets rotate
+        chosen = short + long[:130]
     else:
-        rnd.shuffle(hists)
-        for i, h in enumerate(hists):
-            cases.append({"target": "jsonschema" if i % 2 == 0 else all_targets[(i // 2) % len(all_targets)], "steps": h})
-        cases = cases[:6000]
+        chosen = short + long[:4000]
+    for i, h in enumerate(chosen):
+        cases.append({"target": "jsonschema" if i % 3 else all_targets[(i // 3) % len(all_targets)], "steps": h})
     if ck.replay_case is not None:
         cases = [ck.replay_case["history"]]
     ip = ck.work / "histories.json"
-    core.write_json(ip, {"texts": {"t1": T1, "t2": T2}, "targets": all_targets, "histories": cases})
+    core.write_json(ip, {"texts": cache_texts.TEXTS if ck.quick else cache_texts.TEXTS_THOROUGH, "targets": all_targets, "histories": cases})
     tp = ck.work / "traces_out.json"
     ck.impl("harness.run_c23", [str(ip), str(tp), str(ck.work / "cli")], timeout=2400)
     traces = core.read_json(tp)
@@ -56,9 +55,9 @@ def main() -> int:
     ck.cov["traces_validated_against_impl"] = len(traces)
     ck.cov["distinct_nontrivial"] = nontriv
     ck.cov["trace_events"] = sum(len(t["events"]) for t in traces)
-    ck.cov["rule"] = "all histories of <= MaxLen operations over run(t1|t2, flag on|off) and evict(t1|t2) (TLC-enumerated: %d), each replayed through main.main(argv) for target jsonschema and a sample for the other targets; non-trivial = at least two operations with at least one cache-enabled run" % len(hists)
+    ck.cov["rule"] = "histories of <= 3 operations over run(text, flag on|off) and evict(text), texts = a rich model, an edited model and near-identical variants (leading blank line, trailing blank lines, CRLF, trailing space) (TLC-enumerated: %d; all of length <= 2 and a seeded sample of length 3 replayed through main.main(argv), targets rotating over all eight); non-trivial = at least two operations with at least one cache-enabled run" % len(hists)
     ck.cov["samples"] = [cases[0], cases[len(cases) // 2]]
-    ck.cov["exhaustive"] = ck.quick
+    ck.cov["exhaustive"] = False
     ck.assumptions += ["cache directory = <tempfile.gettempdir()>/aas-core-codegen-<version> (the documented location)", "in-process invocation of main.main with patched sys.argv stands for the CLI process"]
     if nontriv == 0 and ck.replay_case is None:
         raise core.MachineryFailure("vacuous")
